@@ -229,4 +229,23 @@ theorem makeUnique_fresh {u u' : UniqueVars} {v r : String} (h : u.makeUnique v 
         obtain ⟨rfl, rfl⟩ := h
         exact Or.inr ⟨(findFreeVar_spec _ _ _ _ _ hf).1, rfl⟩
 
+/-- a request for a name other than `_` is answered with a variable that was not seen before, and records it -/
+theorem makeUnique_fresh_named {u u' : UniqueVars} {v r : String} (hv : v ≠ "_") (h : u.makeUnique v = some (r, u')) :
+    r ∉ u.all ∧ u'.all = u.all ++ [r] := by
+  unfold UniqueVars.makeUnique at h
+  split at h
+  · rename_i hc; exact absurd (by simpa using hc) hv
+  · split at h
+    · rename_i hc
+      simp only [Option.some.injEq, Prod.mk.injEq] at h
+      obtain ⟨rfl, rfl⟩ := h
+      exact ⟨by simpa using hc, rfl⟩
+    · cases hf : findFreeVar v u.all (u.all.length + 1) 0 with
+      | none => rw [hf] at h; simp at h
+      | some n =>
+        rw [hf] at h
+        simp only [Option.some.injEq, Prod.mk.injEq] at h
+        obtain ⟨rfl, rfl⟩ := h
+        exact ⟨(findFreeVar_spec _ _ _ _ _ hf).1, rfl⟩
+
 end NgoVerif.Proofs.C07
